@@ -114,6 +114,15 @@ func fedSetup(p *sim.Plan) *sim.Setup {
 				}
 				return op.Mode
 			},
+			// what node b sends back to node a on a's streams (acknowledgements) hangs in the network
+			"fed_hold_acks": func(w *sim.World, op *sim.Op) any {
+				a, b := pair(op.Target)
+				cl.HoldBack(a, b, op.Mode == "on")
+				if op.Mode == "on" {
+					w.Fault("fed.acks_held_back")
+				}
+				return op.Mode
+			},
 			// membership events as serf would deliver them: observer>subject
 			"fed_fail": func(w *sim.World, op *sim.Op) any {
 				a, b := pair(op.Target)
